@@ -83,9 +83,12 @@ def run(ctx, only=None):
     n = 2500 if ctx.quick() else 30000
     pool_texts = [t for t in inputs.mixed_stream(rng, n) + [docgen.gen_doc(rng)[0] for _ in range(n // 2)] if usable(t)]
     tricky_b = ['<my-widget>\n\npara\n', '<x-y a="b">\ntext\n\nafter\n', '</my-widget>\n\npara\n', '    indented\n', '  - item\n', '---\n', '===\n', '```\nx\n', '> q\n', '| a |\n| - |\n', '</div>\n', '-->\n', '   continuation\n', '1. one\n', '# h\n',
-                '\n\n    code\n', ' | - |\n', '[x]\n', '  ===\n', '\tx\n', '~~~\n', 'x\n---\n']
+                '\n\n    code\n', ' | - |\n', '[x]\n', '  ===\n', '\tx\n', '~~~\n', 'x\n---\n',
+                # headings whose text is empty or made of # only: what Heading.start leaves behind for read() must be B's, not A's
+                '# #\n', '## ##\n\nbody\n', '### ###\n', '#\n', '# # #\n', '## \n\nbody\n', '# ##\n']
     tricky_a = ['<!-- note -->\n\npara\n', '<pre>\nx\n</pre>\n\npara\n', '<?php x ?>\n\npara\n', '<!DOCTYPE x>\n\n# h\n', '```py\nc\n```\n\npara\n', '# h ##\n\npara\n', 'para\n', '# h\n', 'h\n===\n', '***\n', '> quote\n', '> ```\n> x\n', '> - a\n', '| a |\n| - |\n| b |\n', '> <div>\n', 'a\n\n> b\nlazy\n', '- x\n\npara\n',
-                '```\nc\n```\npara\n', '    code\n\npara\n', '<div>\nx\n</div>\n\npara\n', '> | a |\n> | - |\n', '> a\n> ===\n']
+                '```\nc\n```\npara\n', '    code\n\npara\n', '<div>\nx\n</div>\n\npara\n', '> | a |\n> | - |\n', '> a\n> ===\n',
+                '# Title\n\nIntro paragraph.\n', '## Sub title ##\n', '~~~info\nx\n~~~\n\n# Title #\n']
     pairs = [(a, b) for a in tricky_a for b in tricky_b]
     while len(pairs) < (6000 if ctx.quick() else 120000):
         a = rng.choice(pool_texts)
